@@ -353,7 +353,10 @@ def run_lts_tie(rep, tier, seed, viol):
             rep.sample({"lts_schedule": f"{sname}; A={LtsPair.op_line(a)} parked at {stop}" + (f" then {second}" if second else "") + f"; B={LtsPair.op_line(b)}; mfs={mfs} pool={pool}",
                         "impl": [f"{l} -> {x}" for l, x in p.hs][:40], "model": [f"{l} -> {x}" for l, x in p.ds][:40]})
         if d is not None:
-            viol("correspondence", f"concurrent store LTS vs real store, schedule `{sname}; A={LtsPair.op_line(a)} parked at {stop}"
+            # a thread that hangs or panics, or a process that dies, is the property failing on this schedule, whatever the
+            # model says; anything else is a disagreement between model and code
+            hard = any(w in str(d.observed) for w in ("hang", "panic", "died", "process ended")) and "parked" not in str(d.observed)
+            viol("oracle" if hard else "correspondence", f"concurrent store LTS vs real store, schedule `{sname}; A={LtsPair.op_line(a)} parked at {stop}"
                  + (f" then {second}" if second else "") + f"; B={LtsPair.op_line(b)}; mfs={mfs} pool={pool}`: {d.what}: model says {d.expected!r}, the store shows {d.observed!r}",
                  dict(script=[l for l, _ in p.hs], answers=[x for _, x in p.hs], model_script=[l for l, _ in p.ds], model_answers=[x for _, x in p.ds],
                       failing_line=len(p.hs) - 1, expected=str(d.expected), observed=str(d.observed),
